@@ -39,10 +39,10 @@ SPECS = {
     'C04': dict(level='exploration', q=[('g2', 400000), ('gd', 12000)], t=[('g2', 2000000), ('gd', 200000), ('ca', 200000)], stub=STUB_GRAPH),
     'C05': dict(level='exploration', q=[('g2', 110000), ('gd', 6000)], t=[('g2', 2000000), ('gd', 200000), ('ca', 200000)], stub=STUB_GRAPH),
     'C06': dict(level='exploration', q=[('g2', 100000), ('gd', 5000)], t=[('g2', 1500000), ('gd', 120000), ('ca', 120000)], stub=STUB_IO),
-    'C07': dict(level='exploration', q=[('gd', 12000), ('ca', 12000), ('g2', 60000)], t=[('gd', 200000), ('ca', 250000), ('g2', 1200000)], stub=STUB_GRAPH),
-    'C13': dict(level='exploration', q=[('g2', 80000), ('gd', 5000), ('ca', 5000)], t=[('g2', 1200000), ('gd', 80000), ('ca', 80000)], stub=STUB_IO),
-    'C14': dict(level='exploration', q=[('g2', 80000), ('gd', 5000), ('ca', 5000)], t=[('g2', 1200000), ('gd', 80000), ('ca', 80000)], stub=STUB_IO),
-    'C15': dict(level='fault_enumeration', q=[('g2', 12000), ('g2w', 6000), ('gd', 1500), ('ca', 1500)],
+    'C07': dict(level='exploration', q=[('gd', 8000), ('ca', 10000), ('g2', 60000)], t=[('gd', 200000), ('ca', 250000), ('g2', 1200000)], stub=STUB_GRAPH),
+    'C13': dict(level='exploration', q=[('g2', 80000), ('gd', 3000), ('ca', 3000)], t=[('g2', 1200000), ('gd', 80000), ('ca', 80000)], stub=STUB_IO),
+    'C14': dict(level='exploration', q=[('g2', 80000), ('gd', 3000), ('ca', 3000)], t=[('g2', 1200000), ('gd', 80000), ('ca', 80000)], stub=STUB_IO),
+    'C15': dict(level='fault_enumeration', q=[('g2', 16000), ('g2w', 8000), ('gd', 1400), ('ca', 1400)],
                 t=[('g2', 300000), ('g2w', 150000), ('gd', 30000), ('ca', 30000), ('vg', 400)], stub=STUB_IO),
     'C16': dict(level='exploration', q=[('g2', 120000), ('gd', 6000)], t=[('g2', 1500000), ('gd', 150000), ('ca', 150000)], stub=STUB_GRAPH),
     'C17': dict(level='exploration', q=[('gd', 6000), ('ca', 6000), ('g2', 6000)],
